@@ -398,8 +398,9 @@ def run(ctx):
                     if ok_shape:
                         a0 = cmp_atom(exp.values[0])
                         a1 = cmp_atom(exp.values[1])
-                        parts = {f"{a[0]} {a[1].__name__} {a[2]}" for a in (a0, a1) if a}
-                        ok_shape = parts == {"state Eq TrialState.RUNNING", "trial_id NotEq self._replay_result.owned_trial_id"}
+                        parts = {(a[1].__name__, frozenset((a[0], a[2]))) for a in (a0, a1) if a}
+                        ok_shape = parts == {("Eq", frozenset(("state", "TrialState.RUNNING"))),
+                                             ("NotEq", frozenset(("trial_id", "self._replay_result.owned_trial_id")))}
                     if not ok_shape:
                         bad.append(txt)
                     else:
